@@ -51,38 +51,40 @@ static const cfg_t cfgs[] = {
       { { A_U0, 1, { SR(0, 3) } }, { A_X, 1, { SR(1, 3) } } } },
     { "U0.set_rank(a,3) || X.set_rank(b,1)  (a=1,b=2)", 1, 0, 2, { 1, 2 }, 2,
       { { A_U0, 1, { SR(0, 3) } }, { A_X, 1, { SR(1, 1) } } } },
-    { "U0.free(a) || X.create  (a=1)", 1, 0, 1, { 1 }, 2,
+    { "U0.free(a) || X.create  (a=1)", 0, 0, 1, { 1 }, 2,
       { { A_U0, 1, { FR(0) } }, { A_X, 1, { CR(1) } } } },
     { "U0.set_rank(a,3) || X.set_rank(a,4)  same stream", 1, 0, 1, { 1 }, 2,
       { { A_U0, 1, { SR(0, 3) } }, { A_X, 1, { SR(0, 4) } } } },
     { "U0.set_rank(a,3) || X.set_rank(a,3)  same stream, same rank", 1, 0, 1,
       { 1 }, 2,
       { { A_U0, 1, { SR(0, 3) } }, { A_X, 1, { SR(0, 3) } } } },
-    { "U1.set_rank(a,3) || X.free(b) || U0.get_num  (ES1=1,a=2,b=3)", 1, 1, 2,
+    { "U1.set_rank(a,3) || X.free(b) || U0.get_num  (ES1=1,a=2,b=3)", 0, 1, 2,
       { 2, 3 }, 3,
       { { A_U1, 1, { SR(0, 3) } }, { A_X, 1, { FR(1) } },
         { A_U0, 2, { NUM(), NUM() } } } },
     { "U0.set_rank(a,2);set_rank(a,1) || X.create_r(1)  (a=1)", 1, 0, 1, { 1 },
       2,
       { { A_U0, 2, { SR(0, 2), SR(0, 1) } }, { A_X, 1, { CRR(1, 1) } } } },
+    { "U0.create_r(2) || X.get_num;get_num", 1, 0, 0, { 0 }, 2,
+      { { A_U0, 1, { CRR(0, 2) } }, { A_X, 2, { NUM(), NUM() } } } },
     /* thorough */
     { "U0.create;free own || X.create;set_rank(own,1)", 0, 0, 0, { 0 }, 2,
       { { A_U0, 2, { CR(0), FR(0) } }, { A_X, 2, { CR(1), SR(1, 1) } } } },
-    { "U1.create || X.create || U0.create  (ES1=1)", 0, 1, 0, { 0 }, 3,
-      { { A_U1, 1, { CR(0) } }, { A_X, 1, { CR(1) } },
-        { A_U0, 1, { CR(2) } } } },
+    { "U1.create || X.create  (ES1=1)", 0, 1, 0, { 0 }, 2,
+      { { A_U1, 1, { CR(0) } }, { A_X, 1, { CR(1) } } } },
     { "U1.set_rank(a,3) || X.free(b) || U0.create_r(2)  (ES1=1,a=2,b=3)", 0, 1,
       2, { 2, 3 }, 3,
       { { A_U1, 1, { SR(0, 3) } }, { A_X, 1, { FR(1) } },
         { A_U0, 1, { CRR(2, 2) } } } },
-    { "U0.free(a);create || X.free(b);create  (a=1,b=2)", 0, 0, 2, { 1, 2 }, 2,
-      { { A_U0, 2, { FR(0), CR(2) } }, { A_X, 2, { FR(1), CR(3) } } } },
+    { "U0.free(a);create || X.set_rank(b,1);set_rank(b,2)  (a=1,b=2)", 0, 0, 2,
+      { 1, 2 }, 2,
+      { { A_U0, 2, { FR(0), CR(2) } }, { A_X, 2, { SR(1, 1), SR(1, 2) } } } },
     { "U1.create_r(2) || X.set_rank(a,2);get_num  (ES1=1,a=3)", 0, 1, 1, { 3 },
       2,
       { { A_U1, 1, { CRR(1, 2) } }, { A_X, 2, { SR(0, 2), NUM() } } } },
     { "U0.set_rank(a,3) || X.set_rank(b,4) || U1.set_rank(c,5)  chain "
       "(ES1=1,a=2,b=3,c=4)",
-      0, 1, 3, { 2, 3, 4 }, 3,
+      1, 1, 3, { 2, 3, 4 }, 3,
       { { A_U0, 1, { SR(0, 3) } }, { A_X, 1, { SR(1, 4) } },
         { A_U1, 1, { SR(2, 5) } } } },
 };
@@ -141,6 +143,9 @@ typedef struct {
     int live[NVAR], rank[NVAR];
 } lmodel_t;
 static int fin_live[NVAR], fin_rank[NVAR], fin_num;
+/* diagnosis only: also accept a set_rank(v, r) refused with
+ * ABT_ERR_INV_XSTREAM_RANK while v itself (no other stream) holds r */
+static int relax_own;
 
 static int l_used(const lmodel_t *m, int r, int except)
 {
@@ -185,6 +190,9 @@ static int l_apply(lmodel_t *m, const rec_t *r)
         case O_SETRANK:
             if (l_used(m, o->r, o->var))
                 return r->ret == ABT_ERR_INV_XSTREAM_RANK;
+            if (relax_own && r->ret == ABT_ERR_INV_XSTREAM_RANK &&
+                m->rank[o->var] == o->r)
+                return 1;
             if (r->ret != ABT_SUCCESS)
                 return 0;
             m->rank[o->var] = o->r;
@@ -241,6 +249,17 @@ static int l_search(const lmodel_t *m, int *pos)
     return 0;
 }
 
+static void nop_fn(void *arg) { (void)arg; }
+
+/* let a freshly created stream start and go idle before the window opens
+ * (outside the window the creating thread keeps running until it blocks) */
+static void settle(ABT_xstream x)
+{
+    ABT_task t;
+    OK(ABT_task_create(h_main_pool(x), nop_fn, NULL, &t));
+    OK(ABT_task_free(&t));
+}
+
 static void scenario(int cfg)
 {
     C = &cfgs[cfg];
@@ -252,12 +271,14 @@ static void scenario(int cfg)
         int r;
         OK(ABT_xstream_get_rank(es1, &r));
         abtmc_check(r == 1, "auto_rank", "ES1 got rank %d", r);
+        settle(es1);
     }
     lmodel_t m0;
     memset(&m0, 0, sizeof(m0));
     for (int v = 0; v < C->npre; v++) {
         OK(ABT_xstream_create_with_rank(ABT_SCHED_NULL, C->pre_rank[v],
                                         &var[v]));
+        settle(var[v]);
         m0.live[v] = 1;
         m0.rank[v] = C->pre_rank[v];
     }
@@ -329,11 +350,22 @@ static void scenario(int cfg)
     abtmc_observe("%s", tag);
 
     int pos[MAXACT] = { 0, 0, 0 };
-    abtmc_check(l_search(&m0, pos), "not_linearizable",
-                "no sequential order of the rank operations explains the "
-                "observed results: %s(ret/value per op, actors separated by |; "
-                "then final ranks)",
-                tag);
+    if (!l_search(&m0, pos)) {
+        relax_own = 1;
+        int own = l_search(&m0, pos);
+        abtmc_check(!own, "set_rank_own_rank_refused",
+                    "ABT_xstream_set_rank(x, r) returned "
+                    "ABT_ERR_INV_XSTREAM_RANK although no OTHER stream held r: "
+                    "x itself had just been given r by a concurrent "
+                    "set_rank(x, r); no sequential order explains: %s(ret/value "
+                    "per op, actors separated by |; then final ranks)",
+                    tag);
+        abtmc_check(0, "not_linearizable",
+                    "no sequential order of the rank operations explains the "
+                    "observed results: %s(ret/value per op, actors separated "
+                    "by |; then final ranks)",
+                    tag);
+    }
 
     for (int v = 0; v < NVAR; v++)
         if (var[v] != ABT_XSTREAM_NULL)
